@@ -61,6 +61,22 @@ def post(run, exe, results, env):
             run.cov.setdefault("schedule_search", []).append({"K": k, "bargers": "%d cv-loop waiter(s) + signaller" % nw, "runs": nruns, "max_victim_sleeps": res["maxsleeps"], "bound": bound})
             for v in res["viols"]:
                 run.violation("%s|%s|search K=%d cv waiters=%d" % (v[0], v[1], k, nw), v[4], v[5])
+    # ... and bargers that take the mutex once and then call nsync_mu_wait_with_deadline twenty times on a condition that stays false, with
+    # a deadline that has passed: every call releases the mutex (waking the victim), times out at once and re-acquires through the timeout path
+    from muconfigs import mwt, C1
+    for k, x, nruns in ((K, exe, cruns[0]), (K2, exe2, cruns[1])):
+        for nw in (1, 2):
+            # (a plain barger first drives the victim to the escalation; the timed waiters must then respect it like anybody else)
+            progs = [P("L", "U"), P("L", "U")] + [P(*(["L"] + [mwt(1, dl=-1)] * 20 + ["U"]))] * nw
+            conf = dict(progs=progs, NV=1, conds=C1, Loopers=list(range(2, len(progs) + 1)))
+            if k != K:
+                conf["kthr"] = k
+            bound = k + len(progs) + 2
+            res = run_harness_env(x, ["climb", str(nruns), str(seed() + 20 + nw), "sb=%d " % bound + muconf.init_line(conf), REPLAYS], dict(env, VERIF_SB=str(bound)))
+            run.add("evaluations", nruns); run.add("distinct_nontrivial", res["stats"].get("nontrivial", 0))
+            run.cov.setdefault("schedule_search", []).append({"K": k, "bargers": "1 plain + %d timed conditional waiter(s)" % nw, "runs": nruns, "max_victim_sleeps": res["maxsleeps"], "bound": bound})
+            for v in res["viols"]:
+                run.violation("%s|%s|search K=%d timed waiters=%d" % (v[0], v[1], k, nw), v[4], v[5])
     # random schedules with many barging threads
     runs = 300 if run.tier == "quick" else 5000
     for nb in (4, 6):
